@@ -617,6 +617,59 @@ func runC10(ctx *Ctx) *Report {
 			cases = append(cases, massiveCase{Kind: "massive", Op: op, Doc: hxs(d), Text: d, Sched: int64(9700 + 10*s + oi), Fmt: fmtDefault, Exts: []string{".go"}})
 		}
 	}
+	// the last row of a root's block (the row before the next root, before the blank rows in front of it, or the
+	// last row of the input) has a name that ends in a space or a tab, or that is nothing but blanks after the
+	// bullet: blanks at the end of a row belong to the name in both modes
+	{
+		tails := []string{" ", "\t", "  ", " \t", "\t ", "   "}
+		blankNames := []string{" ", "\t", "  ", " \t "}
+		mops := []string{"text", "json", "walk", "dry", "yaml", "mkdir", "verify"}
+		made := 0
+		for try := 0; made < pick(ctx.Thorough, 400, 36) && try < 5000; try++ {
+			f := randForest(ctx.Rng, 2+ctx.Rng.Intn(10), []string{"plain", "plain", "blanks"}, 4, rep.Dist)
+			for ri, t := range f {
+				last := t
+				for len(last.Kids) > 0 {
+					last = last.Kids[len(last.Kids)-1]
+				}
+				switch r := ctx.Rng.Intn(5); {
+				case r == 0 && ri > 0:
+					// this root's block ends as it is
+				case r == 1 && last != t:
+					last.Name = blankNames[ctx.Rng.Intn(len(blankNames))]
+				default:
+					last.Name += tails[ctx.Rng.Intn(len(tails))]
+				}
+			}
+			sp := plainSpelling
+			switch ctx.Rng.Intn(5) {
+			case 0:
+				sp = Spelling{IndentChar: '\t', Unit: 1, Bullets: "-*", FinalNL: ctx.Rng.Intn(2) == 0}
+			case 1:
+				sp = Spelling{IndentChar: ' ', Unit: 4, Bullets: "+", FinalNL: true, BlankEvery: 1 + ctx.Rng.Intn(3), BlankRow: []string{"", "  ", "\t"}[ctx.Rng.Intn(3)]}
+			case 2:
+				sp = Spelling{IndentChar: ' ', Unit: 2, Bullets: "-", FinalNL: ctx.Rng.Intn(2) == 0, CRLF: true}
+			case 3:
+				sp = Spelling{IndentChar: ' ', Unit: 2, Bullets: "*", FinalNL: false}
+			}
+			if !representable(f, sp) {
+				continue
+			}
+			doc := spell(f, sp)
+			op := mops[made%len(mops)]
+			if (op == "mkdir" || op == "verify") && !distinctRoots(f) {
+				op = "text"
+			}
+			made++
+			k++
+			cases = append(cases, massiveCase{Kind: "massive", Op: op, Doc: hx(doc), Text: docText(doc), Sched: int64(9800 + made), Fmt: lineFormats()[made%len(lineFormats())], Exts: extLists[made%len(extLists)], Procs: []int{0, 0, 2, 16}[made%4]})
+		}
+		for s, d := range []string{"- x\n  - y \n- z\n", "- x\n  - k\n  - k \n- z\n", "- x\n  -  \n- z\n  - w\t\n", "- a\n  - b \n\n  \n- c\n", "- only \n", "- r\n  - a\n    -  \t", "# h\n- x \n# g\n- y\t\n"} {
+			for oi, op := range []string{"text", "json", "walk", "dry"} {
+				cases = append(cases, massiveCase{Kind: "massive", Op: op, Doc: hxs(d), Text: d, Sched: int64(9900 + 10*s + oi), Fmt: fmtDefault, Exts: []string{".go"}})
+			}
+		}
+	}
 	// a failing reader: error iff error
 	{
 		doc := spell(big[:12], plainSpelling)
@@ -688,6 +741,34 @@ func runC10(ctx *Ctx) *Report {
 		b, _ := json.Marshal(c)
 		rep.Record(c, string(b), len(c.Blocks) >= 2 || c.Known != "", diffs)
 		rep.Count("op:" + c.Op + ifs(c.Known != "", "/malformed", ""))
+	}
+	// a NewRoot/Add tree that has already been through other operations (which leave branch strings and paths on
+	// the nodes), then text output / walk / dry-run Mkdir WITH the massive option: one root, so the result is the
+	// simple mode's byte for byte, and it is what the model says for the tree
+	{
+		firsts := []string{"output", "output-fmt", "output-massive", "walk", "walk-massive", "walkiter", "json", "verify", "dry-rejected", "output+walk", "walkiter-break"}
+		var rcs []rootReuseCase
+		for k := 0; k < pick(ctx.Thorough, 1500, 120); k++ {
+			f := randForest(ctx.Rng, 2+ctx.Rng.Intn(14), []string{"plain", "plain", "bullets", "quotes"}, 1, rep.Dist)
+			var seq []string
+			for j, n := 0, 1+ctx.Rng.Intn(3); j < n; j++ {
+				seq = append(seq, firsts[ctx.Rng.Intn(len(firsts))])
+			}
+			rcs = append(rcs, rootReuseCase{Kind: "massive-root-reuse", Tree: f[0].Enc(), First: strings.Join(seq, ","), Fmt: lineFormats()[k%len(lineFormats())], Exts: extLists[k%len(extLists)], Sched: int64(9950 + k), Procs: []int{0, 0, 1, 4}[k%4]})
+		}
+		for fi, first := range append([]string{"none"}, firsts...) {
+			t := &Tree{Name: "root", Kids: []*Tree{{Name: "alpha", Kids: []*Tree{{Name: "a1"}, {Name: "a2.go"}}}, {Name: "beta", Kids: []*Tree{{Name: "b1", Kids: []*Tree{{Name: "deep"}}}}}, {Name: "gamma"}}}
+			rcs = append(rcs, rootReuseCase{Kind: "massive-root-reuse", Tree: t.Enc(), First: first, Fmt: fmtDefault, Exts: []string{".go"}, Sched: int64(9940 + fi)})
+		}
+		for _, c := range rcs {
+			if massiveHangs >= 2 || rep.Full() {
+				break
+			}
+			diffs := runRootReuseMassive(m, c)
+			b, _ := json.Marshal(c)
+			rep.Record(c, string(b), true, diffs)
+			rep.Count("root-reuse/massive")
+		}
 	}
 	// known findings (committed in known_findings.json): replayed under many schedules; a hit is reported
 	// as KNOWN-FINDING by ./check, not as a violation
@@ -1109,4 +1190,97 @@ func runC11(ctx *Ctx) *Report {
 	}
 	knownHits.Unlock()
 	return rep
+}
+
+// ---------------------------------------------------------------- a reused programmatic tree with the massive option (C10)
+
+type rootReuseCase struct {
+	Kind  string   `json:"kind"`
+	Tree  string   `json:"tree"`
+	First string   `json:"earlier_operations"`
+	Fmt   Fmt4     `json:"fmt"`
+	Exts  []string `json:"exts,omitempty"`
+	Sched int64    `json:"sched_seed"`
+	Procs int      `json:"gomaxprocs"`
+}
+
+func init() {
+	replayers["massive-root-reuse"] = func(m *Model, raw json.RawMessage) []Diff {
+		var c rootReuseCase
+		json.Unmarshal(raw, &c)
+		return runRootReuseMassive(m, c)
+	}
+}
+
+func runRootReuseMassive(m *Model, c rootReuseCase) []Diff {
+	massiveMu.Lock()
+	defer massiveMu.Unlock()
+	if c.Procs > 0 {
+		defer runtime.GOMAXPROCS(runtime.GOMAXPROCS(c.Procs))
+	}
+	t := parseTreeEnc(c.Tree)
+	root := buildRoot(t)
+	jail := newJail()
+	defer os.RemoveAll(jail)
+	target := filepath.Join(jail, "t")
+	for _, op := range strings.Split(c.First, ",") {
+		earlierUse(root, op, target)
+	}
+	done := installSched(c.Sched)
+	defer done()
+	fo := fmtOpts(c.Fmt)
+	massive := func(o []gtree.Option) []gtree.Option {
+		return append(append([]gtree.Option{}, o...), gtree.WithMassive(context.Background()))
+	}
+	var d []Diff
+	// each operation twice in each mode, massive first: a second massive call must not build on the first one's branches
+	text := func(o []gtree.Option) string {
+		var b lockedBuf
+		err := gtree.OutputFromRoot(&b, root, o...)
+		return "w=" + hx(b.finish()) + " e=" + classify(err)
+	}
+	walk := func(o []gtree.Option) string {
+		var mu sync.Mutex
+		var vs []string
+		err := gtree.WalkFromRoot(root, func(wn *gtree.WalkerNode) error {
+			mu.Lock()
+			vs = append(vs, showVisit(wn))
+			mu.Unlock()
+			return nil
+		}, o...)
+		mu.Lock()
+		defer mu.Unlock()
+		return "v=" + showVisits(vs) + " e=" + classify(err)
+	}
+	dry := func(o []gtree.Option) string {
+		colorOutMu.Lock()
+		defer colorOutMu.Unlock()
+		old := colorOutput()
+		b := &lockedBuf{}
+		setColorOutput(b)
+		err := gtree.MkdirFromRoot(root, append(append([]gtree.Option{}, o...), gtree.WithDryRun(), gtree.WithTargetDir(target), gtree.WithFileExtensions(c.Exts))...)
+		setColorOutput(old)
+		return "w=" + hx(b.finish()) + " e=" + classify(err)
+	}
+	wantText := m.Ask("rootout " + c.Fmt.enc() + " n 0 " + addMirror(t).Enc())
+	wantWalk := m.Ask("rootwalk " + c.Fmt.enc() + " n " + addMirror(t).Enc())
+	after := "after " + c.First
+	for round := 0; round < 2; round++ {
+		mt := text(massive(fo))
+		d = append(d, cmp("OutputFromRoot with the massive option, "+after+": vs the model", mt, wantText)...)
+		d = append(d, cmp("OutputFromRoot with the massive option, "+after+": vs the simple mode", mt, text(fo))...)
+		mw := walk(massive(fo))
+		d = append(d, cmp("WalkFromRoot with the massive option, "+after+": vs the model", mw, wantWalk)...)
+		d = append(d, cmp("WalkFromRoot with the massive option, "+after+": vs the simple mode", mw, walk(fo))...)
+		md := dry(massive(nil))
+		d = append(d, cmp("dry-run MkdirFromRoot with the massive option, "+after+": vs the simple mode", md, dry(nil))...)
+		after += ", and a round of massive and simple calls"
+		if len(d) > 0 {
+			break
+		}
+	}
+	if len(snapshot(jail)) != 0 {
+		d = append(d, Diff{What: "a dry run created something", Real: strings.Join(snapshot(jail), ","), Model: "nothing"})
+	}
+	return d
 }
